@@ -39,6 +39,8 @@ func init() {
 			{ID: "C10-R15", Title: "the Go channel is operated only by object.Chan", Floor: 1, Run: channelOpsStayInTheChannelObject},
 			{ID: "C10-R16", Title: "iterables are asked for a fresh iterator", Floor: 1, Run: iterablesAreAskedForAFreshIterator},
 			{ID: "C10-R17", Title: "clones alias only what is meant to be shared", Floor: 3, Run: clonesAliasOnlyWhatIsMeantToBeShared},
+			{ID: "C10-R18", Title: "shared state is enumerated (shared with C09-R18)", Floor: 1, Run: sharedStateIsEnumerated},
+			{ID: "C10-R19", Title: "a receiver answers 'nothing' only after it has received", Floor: 2, Run: receiversAskTheChannel},
 		},
 	})
 }
